@@ -569,7 +569,9 @@ class TV:
                 if term[0] != "return" or term[1] != f"{U}_{at[1]}" or consumed != 0:
                     self.fail(fam, f"{t2}.result", f"C ends with {term[:2]} where no transition applies (expected return {at[1]} without consuming)", line)
                 elif at[1] == "OK":
-                    self.fail("protocol", f"{t2}.ok-without-consuming", f"state {i} has no transition for byte {bs[0]} and is not accepting: feed returns OK without consuming the chunk", line,
+                    st_obj = self.c.cctx.dfa.states[i]
+                    lost = ".condlost" if st_obj.transitions and all(len(t.on_values) == 0 for t in st_obj.transitions) else ""
+                    self.fail("protocol", f"{t2}.ok-without-consuming{lost}", f"state {i} has no transition for byte {bs[0]} and is not accepting: feed returns OK without consuming the chunk", line,
                               {"state": i, "byte": bs[0]})
                 else:
                     self.results.append(Result(fam, f"{t2}.result", "proved", "accepting state without applicable transition returns DONE"))
@@ -590,7 +592,8 @@ class TV:
                 acc = z3.is_int_value(tgt) and self.spec.is_accepting(self.c.cctx.dfa.states[tgt.as_long()])
                 want = "DONE" if acc else "FAIL"
                 if term[0] != "return" or term[1] != f"{U}_{want}":
-                    self.fail("end", f"{t2}.result", f"end() returns {term[1] if term[0]=='return' else term} after the end-of-input transition into {'an accepting' if acc else 'a non-accepting'} state; {want} expected", line,
+                    ov = ".override" if a.get("overridden") else ""
+                    self.fail("end", f"{t2}.result{ov}", f"end() returns {term[1] if term[0]=='return' else term} after the end-of-input transition into {'an accepting' if acc else 'a non-accepting'} state; {want} expected", line,
                               {"state": i, "target": str(tgt)})
                 else:
                     self.results.append(Result("end", f"{t2}.result", "proved", f"end returns {want}"))
